@@ -151,6 +151,11 @@ pub struct KReplay {
     /// set for findings of the command-line phase (the instances are unused then)
     #[serde(default)]
     pub cli: Option<CliCase>,
+    /// (tier, worker index, number of workers) of the worker process that found it: a finding
+    /// that depends on everything that process did before (e.g. the process-wide label counter)
+    /// is reproduced by running that worker again
+    #[serde(default)]
+    pub worker: Option<(String, u64, u64)>,
 }
 
 /// the same stages through `driver::Driver::print_*` and the files it writes. `history` programs
@@ -628,6 +633,7 @@ pub fn kworker(tier: &str, seed: u64, w: u64, n: u64) -> i32 {
                     b,
                     minimised: false,
                     cli: None,
+                    worker: Some((tier.to_string(), w, n)),
                 };
                 let mut o = stdout.lock();
                 let _ = writeln!(o, "{}", serde_json::to_string(&serde_json::json!({"found": rp})).unwrap());
@@ -813,6 +819,28 @@ fn cli_compare(bin: &str, tag: &str, src: &str, case: &CliCase) -> Result<Option
     Ok(None)
 }
 
+/// the command line and the seeded environment block of worker process `w`
+fn worker_cmd(exe: &std::path::Path, tier: &str, seed: u64, w: u64, nw: u64, dir_tag: &str) -> Command {
+    let mut rng = Rng::keyed(seed, w, "k-env");
+    let mut cmd = Command::new(exe);
+    cmd.args(["kworker", tier, &seed.to_string(), &w.to_string(), &nw.to_string()]);
+    cmd.env_remove("NO_COLOR").env_remove("CLICOLOR_FORCE");
+    cmd.env("TERM", *rng.pick(&["dumb", "xterm-256color", "vt100", "screen"]));
+    if rng.pct(50) {
+        cmd.env("NO_COLOR", "1");
+    }
+    if rng.pct(30) {
+        cmd.env("CLICOLOR_FORCE", "1");
+    }
+    cmd.env("COLUMNS", rng.pick(&["20", "80", "132", "400"]).to_string());
+    cmd.env("LANG", *rng.pick(&["C", "en_US.UTF-8", "de_DE.UTF-8"]));
+    cmd.env("RUST_BACKTRACE", *rng.pick(&["0", "1"]));
+    let wd = format!("{}/work/{dir_tag}{w}", verif_dir());
+    let _ = std::fs::create_dir_all(&wd);
+    cmd.current_dir(&wd);
+    cmd
+}
+
 pub fn replay(path: &str) -> Result<(KReplay, Option<(String, String)>), String> {
     let s = std::fs::read_to_string(path).map_err(|e| format!("{path}: {e}"))?;
     let rp: KReplay = serde_json::from_str(&s).map_err(|e| format!("{path}: {e}"))?;
@@ -826,6 +854,22 @@ pub fn replay(path: &str) -> Result<(KReplay, Option<(String, String)>), String>
         return Ok((rp, r));
     }
     let r = compare(&rp.source, &rp.a, &rp.b);
+    if r.is_none() {
+        if let Some((tier, w, n)) = rp.worker.clone() {
+            // not reproducible from the instance pair alone: run the worker process again
+            let exe = std::env::current_exe().map_err(|e| e.to_string())?;
+            let out = worker_cmd(&exe, &tier, rp.verif_seed, w, n, "kr").stderr(Stdio::null()).output().map_err(|e| e.to_string())?;
+            let _ = std::fs::remove_dir_all(format!("{}/work/kr{w}", verif_dir()));
+            for l in String::from_utf8_lossy(&out.stdout).lines() {
+                let Ok(v) = serde_json::from_str::<serde_json::Value>(l) else { continue };
+                if let Some(f) = v.get("found").and_then(|f| serde_json::from_value::<KReplay>(f.clone()).ok()) {
+                    if f.name == rp.name && f.stage == rp.stage {
+                        return Ok((rp, Some((f.stage, format!("{} (reproduced by re-running worker {w} of {n}; the instance pair alone does not show it)", f.message)))));
+                    }
+                }
+            }
+        }
+    }
     Ok((rp, r))
 }
 
@@ -837,24 +881,7 @@ pub fn check(tier: &str) -> i32 {
     let exe = std::env::current_exe().expect("exe");
     let mut handles = Vec::new();
     for w in 0..nw {
-        // seeded environment block per simulated process
-        let mut rng = Rng::keyed(seed, w, "k-env");
-        let mut cmd = Command::new(&exe);
-        cmd.args(["kworker", tier, &seed.to_string(), &w.to_string(), &nw.to_string()]);
-        cmd.env_remove("NO_COLOR").env_remove("CLICOLOR_FORCE");
-        cmd.env("TERM", *rng.pick(&["dumb", "xterm-256color", "vt100", "screen"]));
-        if rng.pct(50) {
-            cmd.env("NO_COLOR", "1");
-        }
-        if rng.pct(30) {
-            cmd.env("CLICOLOR_FORCE", "1");
-        }
-        cmd.env("COLUMNS", rng.pick(&["20", "80", "132", "400"]).to_string());
-        cmd.env("LANG", *rng.pick(&["C", "en_US.UTF-8", "de_DE.UTF-8"]));
-        cmd.env("RUST_BACKTRACE", *rng.pick(&["0", "1"]));
-        let wd = format!("{}/work/k{w}", verif_dir());
-        let _ = std::fs::create_dir_all(&wd);
-        cmd.current_dir(&wd);
+        let mut cmd = worker_cmd(&exe, tier, seed, w, nw, "k");
         let mut c = cmd.stdout(Stdio::piped()).stderr(Stdio::null()).spawn().expect("spawn");
         let out = c.stdout.take().unwrap();
         handles.push(std::thread::spawn(move || {
@@ -973,6 +1000,7 @@ pub fn check(tier: &str) -> i32 {
                             b: inst,
                             minimised: true,
                             cli: Some(case),
+                            worker: None,
                         });
                     }
                 }
